@@ -1,6 +1,6 @@
 (* Property C16 — compiled models coexist in one process without interfering. *)
 From Coq Require Import String ZArith List Bool Arith.
-From TLX Require Import Model.Bits Model.CLang Model.Proc Gen.LibIO Gen.WrapperParams Proofs.C16Facts Model.Threads Gen.Storage Proofs.ThreadsFacts Model.ProcAlloc Proofs.ProcAllocFacts.
+From TLX Require Import Model.Bits Model.CLang Model.Proc Gen.LibIO Gen.WrapperParams Proofs.C16Facts Model.Threads Gen.Storage Proofs.ThreadsFacts Model.ProcAlloc Proofs.ProcAllocFacts Model.Netlist Model.GenDense Proofs.ThreadsDense Model.ConvNet Model.GenNet Proofs.ThreadsNet.
 Import ListNotations.
 
 (* the library calls made by compile(save) and load in the current source *)
@@ -79,6 +79,34 @@ Theorem C16_threads_complete :
               finished t = true /\ map Some (t_results t) = map (expectedZ W libs) calls.
 Proof. exact (fun W => private_schedules_complete 0%Z Z.lnot Z.land Z.lor Z.lxor (wrap W)). Qed.
 
+(* END TO END for dense networks: the libraries are the generated programs of ANY well-formed dense models; every call names one of them
+   and brings an input of its size.  Then under EVERY schedule that gives thread j its turns, thread j finishes and the result of each of
+   its calls is, in EVERY bit lane, the reference circuit (eval-mode function) of the model it called - whatever the other threads do *)
+Theorem C16_threads_dense_networks :
+  forall (W : Z) (ms : list dense_model) (inits : list (list (nat * list Z) * @mem Z * (nat -> @mem Z))) (sh : nat -> @mem Z)
+         (sched : list nat) j calls gp gt,
+    (0 < W)%Z ->
+    Forall (Forall (call_ok ms)) (map (fun x => fst (fst x)) inits) ->
+    nth_error inits j = Some (calls, gp, gt) ->
+    list_sum (map (call_work (map gen_dense ms)) calls) <= count_occ Nat.eq_dec sched j ->
+    let w0 := {| w_threads := map (fun x => fresh_thread (fst (fst x)) (snd (fst x)) (snd x)) inits; w_shared := sh |} in
+    exists t, nth_error (w_threads (run_scheduleZ W (negb (private_storage buffer_storage)) (map gen_dense ms) w0 sched)) j = Some t /\
+              finished t = true /\ Forall2 (result_ok W ms) calls (t_results t).
+Proof. exact threads_dense_networks. Qed.
+
+(* ... and for stacks Conv (Conv|Pool)* [Flatten Dense*] in 2-D and 3-D (generator theorem C02_logic_net) *)
+Theorem C16_threads_spatial_networks :
+  forall (W : Z) (ms : list spatial_model) (inits : list (list (nat * list Z) * @mem Z * (nat -> @mem Z))) (sh : nat -> @mem Z)
+         (sched : list nat) j calls gp gt,
+    (0 < W)%Z ->
+    Forall (Forall (ncall_ok ms)) (map (fun x => fst (fst x)) inits) ->
+    nth_error inits j = Some (calls, gp, gt) ->
+    list_sum (map (call_work (map gen_net ms)) calls) <= count_occ Nat.eq_dec sched j ->
+    let w0 := {| w_threads := map (fun x => fresh_thread (fst (fst x)) (snd (fst x)) (snd x)) inits; w_shared := sh |} in
+    exists t, nth_error (w_threads (run_scheduleZ W (negb (private_storage buffer_storage)) (map gen_net ms) w0 sched)) j = Some t /\
+              finished t = true /\ Forall2 (nresult_ok W ms) calls (t_results t).
+Proof. exact threads_spatial_networks. Qed.
+
 (* one thread, many calls: a call's result does not depend on what earlier calls left in `out` and in the buffers *)
 Theorem C16_stale_memory : forall (W : Z) (p : prog) (inp out : list Z) (stale : @mem Z),
   execZ W p inp = Some out ->
@@ -145,3 +173,5 @@ Eval compute in "PA:C16_unwritten_read_refuted"%string. Print Assumptions C16_un
 Eval compute in "PA:C16_invariant_any_inode_policy"%string. Print Assumptions C16_invariant_any_inode_policy.
 Eval compute in "PA:C16_policies_fresh"%string. Print Assumptions C16_policies_fresh.
 Eval compute in "PA:C16_cached_by_identity_refuted"%string. Print Assumptions C16_cached_by_identity_refuted.
+Eval compute in "PA:C16_threads_dense_networks"%string. Print Assumptions C16_threads_dense_networks.
+Eval compute in "PA:C16_threads_spatial_networks"%string. Print Assumptions C16_threads_spatial_networks.
